@@ -70,11 +70,15 @@ func (c *Ctx) ruleC14FS() {
 	r := c.R
 	r.Rule("C14-WHO-MAY-TOUCH-FS", "path-taking file primitives (os.*, ioutil.*, filepath.Walk/Glob/EvalSymlinks/Abs, schema-core reader.*, os/exec, net) are called in library packages only at reference sites, recognised by their role: the Stat of the include resolver, a read of the path the resolver returned (handed on through parameters of helpers at most), and in package kit the read of the root file named by the caller; thorough tier: also no other dependency function reachable from the library reaches such a primitive", 3)
 	resolver := c.includeResolver()
+	var statHolder *Fn
+	if ri := c.includeResolverInfo(); ri != nil {
+		statHolder = ri.holder
+	}
 	// a site is a reference site by its role, not by the name of the function it sits in:
 	//   the Stat of the include resolver; a primitive that is handed a governed path (the resolver's result, C14-VALIDATE-FIRST);
 	//   in package kit, a primitive that is handed a parameter of an entry point (the root file chosen by the caller)
 	role := func(f *Fn, call *ast.CallExpr, cal *types.Func) string {
-		if resolver != nil && f.Obj == resolver.Obj && cal.Pkg().Path() == "os" && (cal.Name() == "Stat" || cal.Name() == "Lstat") {
+		if resolver != nil && (f.Obj == resolver.Obj || (statHolder != nil && f.Obj == statHolder.Obj)) && cal.Pkg().Path() == "os" && (cal.Name() == "Stat" || cal.Name() == "Lstat") {
 			return "stat of the validated, joined include path"
 		}
 		if len(call.Args) == 0 {
@@ -201,28 +205,18 @@ func (c *Ctx) ruleC14DeepFS() {
 func (c *Ctx) ruleC14ValidateFirst() {
 	r := c.R
 	r.Rule("C14-VALIDATE-FIRST", "in the function calling os.Stat: the stat'ed value is filepath.Join(filepath.Dir(<current scanner>.File().Name()), p); p passed the name predicate in an `if err := V(p); err != nil { return error }` that dominates the Stat; every successful return hands on the very variable that was stat'ed and is dominated by the Stat call; the reader is given that returned value", 4)
-	f := c.includeResolver()
-	if f == nil {
+	ri := c.includeResolverInfo()
+	if ri == nil || ri.statArg == nil {
 		r.Bad("C14-VALIDATE-FIRST", "stat", "no library function outside package kit stats a path (or several do): the include path is not checked for existence by one resolver", "")
 		return
 	}
+	f := ri.resolver
 	pk := f.Pkg
 	where := c.pos(f.Decl.Pos())
 	cf := buildCFG(f.Decl.Body)
-	var stat *ast.CallExpr
-	ast.Inspect(f.Decl.Body, func(n ast.Node) bool {
-		if call, ok := n.(*ast.CallExpr); ok {
-			if cal := callee(pk, call); cal != nil && cal.Pkg() != nil && cal.Pkg().Path() == "os" && (cal.Name() == "Stat" || cal.Name() == "Lstat") {
-				stat = call
-			}
-		}
-		return true
-	})
-	if stat == nil {
-		r.Bad("C14-VALIDATE-FIRST", "stat", "getIncludedFilePath no longer stats the path", where)
-		return
-	}
-	statArg := accessPath(pk, stat.Args[0])
+	stat := ri.stat
+	_ = where
+	statArg := accessPath(pk, ri.statArg)
 	// definition of the stat'ed variable
 	var join *ast.CallExpr
 	ast.Inspect(f.Decl.Body, func(n ast.Node) bool {
@@ -341,7 +335,7 @@ func (c *Ctx) ruleC14ValidateFirst() {
 				return true
 			}
 			cal := callee(g.Pkg, call)
-			if !fsPrimitive(cal) || cal.Pkg().Path() == "os" && (cal.Name() == "Stat" || cal.Name() == "Lstat") && g.Obj == f.Obj {
+			if !fsPrimitive(cal) || cal.Pkg().Path() == "os" && (cal.Name() == "Stat" || cal.Name() == "Lstat") && (g.Obj == f.Obj || g.Obj == ri.holder.Obj) {
 				return true
 			}
 			nReads++
@@ -377,28 +371,57 @@ func (c *Ctx) ruleC14ValidateFirst() {
 
 // includeResolver: the one library function outside package kit that stats a path.
 func (c *Ctx) includeResolver() *Fn {
+	if ri := c.includeResolverInfo(); ri != nil {
+		return ri.resolver
+	}
+	return nil
+}
+
+// resolverInfo: the include resolver and its Stat. When the Stat sits in a helper that stats its own (unassigned)
+// parameter and is called from one place, the resolver is that caller, the call of the helper stands for the Stat
+// and the argument for the stat'ed path.
+type resolverInfo struct {
+	resolver, holder *Fn
+	stat             *ast.CallExpr
+	statArg          ast.Expr
+}
+
+func (c *Ctx) includeResolverInfo() *resolverInfo {
 	var found []*Fn
+	var stats []*ast.CallExpr
 	for _, g := range c.libFns() {
 		if g.Pkg.Types.Name() == "kit" {
 			continue
 		}
-		has := false
+		var st *ast.CallExpr
 		ast.Inspect(g.Decl.Body, func(n ast.Node) bool {
 			if call, ok := n.(*ast.CallExpr); ok {
 				if cal := callee(g.Pkg, call); cal != nil && cal.Pkg() != nil && cal.Pkg().Path() == "os" && (cal.Name() == "Stat" || cal.Name() == "Lstat") {
-					has = true
+					st = call
 				}
 			}
 			return true
 		})
-		if has {
+		if st != nil {
 			found = append(found, g)
+			stats = append(stats, st)
 		}
 	}
-	if len(found) == 1 {
-		return found[0]
+	if len(found) != 1 {
+		return nil
 	}
-	return nil
+	ri := &resolverInfo{resolver: found[0], holder: found[0], stat: stats[0]}
+	if len(stats[0].Args) == 1 {
+		ri.statArg = stats[0].Args[0]
+		if idx := paramIndexOf(found[0], stats[0].Args[0]); idx >= 0 && !paramAssigned(found[0], stats[0].Args[0]) {
+			if sites, closed := c.callersOf(found[0]); closed && len(sites) == 1 {
+				if a := argFor(sites[0], idx); a != nil {
+					ri.resolver, ri.stat, ri.statArg = sites[0].g, sites[0].call, a
+				}
+			}
+		}
+	}
+	return ri
 }
 
 // governedPath: the expression is the first result of the include resolver (a local defined from its call), or a
